@@ -507,11 +507,25 @@ def finish (ext : WExt) : Step Unit := fun s => do
     | .storer none => pure (.ok (), { s with inner := .closed })
     | _ => M.panic "write.rs:1051 unwrap"
 
-/-- `Drop`: finalize unless closed; errors are printed and dropped. -/
+/-- Dropping the `GenericZipWriter` field after `Drop::drop` ran: flate2's and bzip2's write-side
+encoders finish their stream into the sink when they are dropped (`impl Drop`: `let _ = self.finish()`,
+errors ignored); zstd's encoder does not; an encoder over the ZipCrypto layer only fills that layer's
+buffer, which is dropped with it.  An encoder is still alive here only when `finalize` failed before
+`finish_file` switched back to `Stored` (e.g. an over-long archive comment). -/
+def dropInner (ext : WExt) : Step Unit := fun s =>
+  match s.inner with
+  | .compressor m l none pending =>
+    if m == .deflated || m == .bzip2 then do
+      let _ ← M.attempt (M.writeAll (ext.compress m l pending))
+      pure (.ok (), { s with inner := .closed })
+    else pure (.ok (), s)
+  | _ => pure (.ok (), s)
+
+/-- `Drop`: finalize unless closed; errors are printed and dropped; then the fields are dropped. -/
 def dropWriter (ext : WExt) : Step Unit := fun s => do
   if s.inner.isClosed then pure (.ok (), s) else
   let (_, s) ← finalize ext s
-  pure (.ok (), s)
+  dropInner ext s
 
 end ZipVerif.Model
 
